@@ -168,7 +168,7 @@ func runC05(c *Ctx) {
 	}
 
 	// ---- R5 validator removal hook ------------------------------------------------------------
-	c.Rule("R5", "AfterValidatorRemoved deletes both indexes of the same (consumer, validator) entry, for entries whose provider address equals the removed validator", 3)
+	c.Rule("R5", "AfterValidatorRemoved deletes both indexes of the same (consumer, validator) entry, for entries whose provider address equals the removed validator; genesis import writes both indexes from the exported entries in their roles and export lists both", 3)
 	if h := c.Fn("pk.Hooks.AfterValidatorRemoved"); h != nil {
 		d1 := c.one(h, false, "pk.Keeper.DeleteValidatorByConsumerAddr")
 		d2 := c.one(h, false, "pk.Keeper.DeleteValidatorConsumerPubKey")
@@ -192,6 +192,22 @@ func runC05(c *Ctx) {
 			eq := ABool("entry.ProviderAddr == valConsAddr", PCall("sdk.ConsAddress.Equals", -1, entry("ProviderAddr"), PParam("valConsAddr")))
 			c.GuardedBy(d1, fk(h, "only-removed-validator", "reverse"), eq)
 			c.GuardedBy(d2, fk(h, "only-removed-validator", "forward"), eq)
+		}
+	}
+
+	// genesis import restores both indexes in their roles
+	if f := c.Fn("pk.Keeper.InitGenesis"); f != nil {
+		fw := PElemOf(PField(PParam("genState"), "ValidatorConsumerPubkeys"))
+		rv := PElemOf(PField(PParam("genState"), "ValidatorsByConsumerAddr"))
+		c.ArgRoles(f, "pk.Keeper.SetValidatorConsumerPubKey", "genesis-forward-index", "SetValidatorConsumerPubKey(item.ChainId, provider(item.ProviderAddr), *item.ConsumerKey)",
+			PField(fw, "ChainId"), PCall("pt.NewProviderConsAddress", -1, nil, PField(fw, "ProviderAddr")), PDeref(PField(fw, "ConsumerKey")))
+		c.ArgRoles(f, "pk.Keeper.SetValidatorByConsumerAddr", "genesis-reverse-index", "SetValidatorByConsumerAddr(item.ChainId, consumer(item.ConsumerAddr), provider(item.ProviderAddr))",
+			PField(rv, "ChainId"), PCall("pt.NewConsumerConsAddress", -1, nil, PField(rv, "ConsumerAddr")), PCall("pt.NewProviderConsAddress", -1, nil, PField(rv, "ProviderAddr")))
+	}
+	if f := c.Fn("pk.Keeper.ExportGenesis"); f != nil {
+		if n := c.one(f, false, "pt.NewGenesisState"); n != nil {
+			c.Check(PCall("pk.Keeper.GetAllValidatorConsumerPubKeys", -1, nil)(arg(n, 4)) && PCall("pk.Keeper.GetAllValidatorsByConsumerAddr", -1, nil)(arg(n, 5)), fk(f, "exports-both-indexes"), n,
+				"exports (GetAllValidatorConsumerPubKeys, GetAllValidatorsByConsumerAddr) in their slots; found "+describe(arg(n, 4))+", "+describe(arg(n, 5)))
 		}
 	}
 
